@@ -127,7 +127,7 @@ def sweep_cases(rng, seed, n):
     from .prog import Case, S
     out = []
     for j in range(n):
-        kind = ("map", "reduce", "oreduce")[j % 3]
+        kind = ("map", "reduce", "oreduce", "mesh")[j % 4]
         nk = rng.choice([3, 4, 5, 6])
         c = Case(f"c14_{seed}_sweep{j}", 0, 12)
         keys = rng.sample(range(9), nk)
@@ -163,6 +163,27 @@ def sweep_cases(rng, seed, n):
                 cc.meta["plan"] = [list(x) for x in plan]
                 out.append(cc)
             continue
+        if kind == "mesh":
+            # mesh_ instances alive at shutdown with HOLES in the slot table: keys arrive, one or two of the earlier ones are removed
+            # again mid-run, the later ones live until the graph stops (with and without a stop fault in one of them)
+            gone = rng.sample(keys[:-1], rng.choice([1, 1, 2]) if nk > 3 else 1)
+            c.cscripts[1] = [f"{t}|" + ",".join(ops) for t, ops in sorted(hist.items())] + \
+                            [f"{5 + q}|x[{k}]" for q, k in enumerate(gone)] + [f"9|[{keys[-1]}]=5"]
+            c.cscripts[2] = [f"1|[{keys[-1]}]={keys[-2]}"] if rng.random() < 0.5 else []
+            c.graphs["fn0"] = [S("e", "pass", "p0", uid=10), S("a", "acc", "e", uid=11), S("", "RET", "a")]
+            c.graphs["main"] = [S("d", "csrc", shape="tsd", uid=1), S("k", "csrc", shape="tsd", uid=2), S("m", "mesh", "d", "k", fn="fn2:0"),
+                                S("", "cmirror", "m", uid=20)]
+            c.meta["dynamic"] = True
+            c.meta["mesh_uids"] = [10, 11]
+            for k, (plan, cleanup) in enumerate([([], 1), ([], 0), ([(10, "stop", 1)], 1), ([(11, "stop", 2)], 1), ([(10, "stop", 2)], 0),
+                                                 ([(11, "eval", 3)], 1)]):
+                cc = copy.deepcopy(c)
+                cc.name = f"{c.name}_f{k}"
+                cc.faults = list(plan)
+                cc.opts["cleanup"] = cleanup
+                cc.meta["plan"] = [list(x) for x in plan]
+                out.append(cc)
+            continue
         if kind == "map":
             c.graphs["fn0"] = [S("e", "pass", "p0", uid=10), S("a", "acc", "e", uid=11), S("", "RET", "a")]
             c.graphs["main"] = [S("d", "csrc", shape="tsd", uid=1), S("m", "map", "d", fn="fn1:0"), S("", "cmirror", "m", uid=20)]
@@ -189,7 +210,7 @@ def sweep_cases(rng, seed, n):
 
 def generate(rng, tier, seed):
     nprog = scaled(30 if tier == "quick" else 300)
-    cases = sweep_cases(random.Random(f"c14sweep/{seed}/{tier}"), seed, 12 if tier == "quick" else 60)
+    cases = sweep_cases(random.Random(f"c14sweep/{seed}/{tier}"), seed, 16 if tier == "quick" else 80)
     for p in range(nprog):
         base = gen_case(rng, f"c14_{seed}_{p}", n_nodes=rng.choice([2, 3, 5, 8]), max_depth=2,
                         nested_only="nested" if rng.random() < 0.6 else None)
@@ -351,7 +372,10 @@ def check(case, tr):
             # the reduction's own stop during shutdown
             root_cycle_ends = [q for q, kd, tk in run.events if kd == "C>" and int(tk[0]) == 0]
             mid_run = bool(root_cycle_ends) and fired_seq[0] < root_cycle_ends[-1]
-            if first[1] == "stop" and first[0] in case.meta.get("reduce_uids", []) and mid_run:
+            if first[1] == "stop" and first[0] in case.meta.get("mesh_uids", []) and mid_run:
+                V.append(Violation(f"stop() of a node inside a mesh_ instance retired MID-RUN (its key was removed) threw {first}; the exception "
+                                   f"was swallowed and run() returned normally", "mesh-retired-instance-stop-failure-swallowed"))
+            elif first[1] == "stop" and first[0] in case.meta.get("reduce_uids", []) and mid_run:
                 V.append(Violation(f"stop() of a node inside a retired reduce combiner threw {first}; the exception was swallowed and run() "
                                    f"returned normally", "reduce-retired-combiner-stop-failure-swallowed"))
             else:
